@@ -134,3 +134,259 @@ Proof.
   destruct (rottoric_is_z_plaquette (ax, ay)), (rottoric_is_z_plaquette (bx, by_)); cbn; split; intros H;
     try congruence; try discriminate.
 Qed.
+
+(* ------------------------------------------------------------------------------------------ *)
+(* all sizes: site access round-trips, and the supplied logical operators have the documented   *)
+(* weights (so the lighter one weighs d = min(rows, cols))                                      *)
+(* ------------------------------------------------------------------------------------------ *)
+Local Close Scope Z_scope.
+Lemma rc_flip_at_nth_other i : forall l j d, i <> j -> nth j (rc_flip_at i l) d = nth j l d.
+Proof.
+  induction i as [|i IH]; intros [|b l] [|j] d H; cbn; auto; try congruence; try (apply IH; congruence).
+Qed.
+Lemma rc_flip_at_nth_same i : forall l d, i < length l -> nth i (rc_flip_at i l) d = negb (nth i l d).
+Proof. induction i as [|i IH]; intros [|b l] d H; cbn in *; try lia; auto. apply IH. lia. Qed.
+Lemma rc_flip_at_count i : forall l, i < length l -> nth i l false = false ->
+  count_true (rc_flip_at i l) = S (count_true l).
+Proof.
+  induction i as [|i IH]; intros [|b l] H Hn; cbn in *; try lia.
+  - subst b. reflexivity.
+  - rewrite IH by (auto; lia). lia.
+Qed.
+Definition rc_flips (ps : list nat) (xs : bsf) : bsf := fold_left (fun a i => rc_flip_at i a) ps xs.
+Lemma rc_flips_length ps : forall xs, length (rc_flips ps xs) = length xs.
+Proof. induction ps as [|i ps IH]; intros xs; cbn; auto. unfold rc_flips in IH. now rewrite IH, rc_flip_at_length. Qed.
+Lemma rc_flips_count ps : forall xs, NoDup ps ->
+  (forall i, In i ps -> i < length xs /\ nth i xs false = false) ->
+  count_true (rc_flips ps xs) = count_true xs + length ps.
+Proof.
+  induction ps as [|i ps IH]; intros xs Hnd H; cbn; [lia|].
+  inversion Hnd as [|? ? Hni Hnd']; subst. destruct (H i (or_introl eq_refl)) as [Hi Hf].
+  unfold rc_flips in IH. rewrite IH; auto.
+  - rewrite rc_flip_at_count by auto. lia.
+  - intros j Hj. destruct (H j (or_intror Hj)) as [Hj1 Hj2]. rewrite rc_flip_at_length. split; auto.
+    rewrite rc_flip_at_nth_other; auto. intros ->. contradiction.
+Qed.
+Lemma rc_nth_zeros n i : nth i (zeros n) false = false.
+Proof. unfold zeros. revert i. induction n as [|n IH]; intros [|i]; cbn; auto. Qed.
+Lemma rc_count_zeros n : count_true (zeros n) = 0.
+Proof. unfold zeros. induction n; cbn; auto. Qed.
+Lemma rc_orv_zeros_r xs : orv xs (zeros (length xs)) = xs.
+Proof. unfold zeros. induction xs as [|x xs IH]; cbn; auto. now rewrite IH, orb_false_r. Qed.
+Lemma rc_orv_zeros_l zs : orv (zeros (length zs)) zs = zs.
+Proof. unfold zeros. induction zs as [|z zs IH]; cbn; auto. now rewrite IH. Qed.
+Lemma rc_wt_x_only xs n : length xs = n -> bsf_wt (xs ++ zeros n) = count_true xs.
+Proof.
+  intros <-. unfold bsf_wt. rewrite halves_app by (now rewrite zeros_length). now rewrite rc_orv_zeros_r.
+Qed.
+Lemma rc_wt_z_only zs n : length zs = n -> bsf_wt (zeros n ++ zs) = count_true zs.
+Proof.
+  intros <-. unfold bsf_wt. rewrite halves_app by (now rewrite zeros_length). now rewrite rc_orv_zeros_l.
+Qed.
+Lemma rc_NoDup_map_inj {A B} (f : A -> B) (l : list A) :
+  (forall x y, In x l -> In y l -> f x = f y -> x = y) -> NoDup l -> NoDup (map f l).
+Proof.
+  induction l as [|a l IH]; intros Hinj Hnd; cbn; [constructor|].
+  inversion Hnd as [|? ? Hni Hnd']; subst. constructor.
+  - intros Hin. apply in_map_iff in Hin. destruct Hin as (y & Hy & Hyl).
+    assert (y = a) by (apply Hinj; cbn; auto). subst. contradiction.
+  - apply IH; auto. intros x y Hx Hy. apply Hinj; cbn; auto.
+Qed.
+Lemma rc_range_NoDup lo hi : NoDup (rc_range lo hi).
+Proof.
+  unfold rc_range, rc_zrange. apply rc_NoDup_map_inj; [|apply seq_NoDup]. intros x y _ _ H. lia.
+Qed.
+Lemma rc_range_length lo hi : length (rc_range lo hi) = Z.to_nat (hi - lo).
+Proof. unfold rc_range, rc_zrange. now rewrite map_length, seq_length. Qed.
+
+(* the X/Z arrays after a sequence of flips with one letter *)
+Definition rc_apply_flips (op : pl) (ps : list nat) (p : rc_pauli) : rc_pauli :=
+  rc_mk (if xbit op then rc_flips ps (rc_xs p) else rc_xs p) (if zbit op then rc_flips ps (rc_zs p) else rc_zs p).
+Lemma rc_apply_flips_cons op i ps p : rc_apply_flips op (i :: ps) p = rc_apply_flips op ps (rc_flip op i p).
+Proof. unfold rc_apply_flips, rc_flip. destruct (xbit op), (zbit op); reflexivity. Qed.
+
+Local Open Scope Z_scope.
+Lemma rp_sites_in_bounds rows cols op idxs : forall p,
+  Forall (fun i => rotplanar_is_in_site_bounds rows cols i = true) idxs ->
+  rp_sites rows cols op idxs p =
+  rc_apply_flips op (map (fun i => Z.to_nat (rotplanar_flatten rows cols i)) idxs) p.
+Proof.
+  induction idxs as [|i idxs IH]; intros p H.
+  - destruct p. unfold rc_apply_flips. cbn. destruct (xbit op), (zbit op); reflexivity.
+  - inversion H as [|? ? Hi Hr]; subst. cbn [map]. rewrite rc_apply_flips_cons.
+    unfold rp_sites in *. cbn [fold_left]. rewrite IH by auto. unfold rp_site. now rewrite Hi.
+Qed.
+Lemma rp_flat_nat_inj rows cols i j :
+  rotplanar_is_in_site_bounds rows cols i = true -> rotplanar_is_in_site_bounds rows cols j = true ->
+  Z.to_nat (rotplanar_flatten rows cols i) = Z.to_nat (rotplanar_flatten rows cols j) -> i = j.
+Proof.
+  intros Hi Hj E. apply (rp_flatten_injective rows cols); auto.
+  pose proof (rp_flatten_range rows cols i Hi). pose proof (rp_flatten_range rows cols j Hj). lia.
+Qed.
+(* weight of one letter laid on a duplicate-free list of in-bounds sites of the identity *)
+Lemma rp_sites_weight rows cols op idxs : op <> pI -> NoDup idxs ->
+  Forall (fun i => rotplanar_is_in_site_bounds rows cols i = true) idxs ->
+  bsf_wt (rc_to_bsf (rp_sites rows cols op idxs (rp_identity rows cols))) = length idxs /\
+  (op = pX -> rc_zs (rp_sites rows cols op idxs (rp_identity rows cols)) = zeros (rp_n rows cols)) /\
+  (op = pZ -> rc_xs (rp_sites rows cols op idxs (rp_identity rows cols)) = zeros (rp_n rows cols)).
+Proof.
+  intros Hop Hnd Hin. rewrite rp_sites_in_bounds by auto.
+  set (ps := map (fun i => Z.to_nat (rotplanar_flatten rows cols i)) idxs).
+  assert (Hps : NoDup ps).
+  { apply rc_NoDup_map_inj; auto. rewrite Forall_forall in Hin. intros x y Hx Hy. apply rp_flat_nat_inj; auto. }
+  assert (Hlt : forall i, In i ps -> (i < length (zeros (rp_n rows cols)) /\ nth i (zeros (rp_n rows cols)) false = false)%nat).
+  { intros i Hi. rewrite zeros_length, rc_nth_zeros. split; auto.
+    apply in_map_iff in Hi. destruct Hi as (idx & <- & Hidx). rewrite Forall_forall in Hin.
+    pose proof (rp_flatten_range rows cols idx (Hin _ Hidx)) as Hr. unfold rp_n.
+    destruct (rotplanar_n_k_d rows cols) as [[n k] d]. cbn [fst] in Hr. lia. }
+  assert (Hc : count_true (rc_flips ps (zeros (rp_n rows cols))) = length idxs).
+  { rewrite rc_flips_count by auto. rewrite rc_count_zeros. unfold ps. now rewrite map_length. }
+  assert (Hl : length (rc_flips ps (zeros (rp_n rows cols))) = rp_n rows cols) by (now rewrite rc_flips_length, zeros_length).
+  unfold rc_apply_flips, rp_identity, rc_identity, rc_to_bsf. cbn [rc_xs rc_zs].
+  destruct op; try congruence; cbn [xbit zbit]; (split; [|split; intros; congruence || reflexivity]).
+  - now rewrite rc_wt_x_only.
+  - unfold bsf_wt. rewrite halves_app by (now rewrite Hl).
+    assert (E : orv (rc_flips ps (zeros (rp_n rows cols))) (rc_flips ps (zeros (rp_n rows cols))) = rc_flips ps (zeros (rp_n rows cols))).
+    { generalize (rc_flips ps (zeros (rp_n rows cols))). intros l. induction l as [|b l IH]; cbn; auto. now rewrite IH, orb_diag. }
+    now rewrite E.
+  - now rewrite rc_wt_z_only.
+Qed.
+
+Theorem rp_logical_x_weight : forall rows cols, 1 <= rows -> 1 <= cols ->
+  bsf_wt (rc_to_bsf (rp_logical_x rows cols (rp_identity rows cols))) = Z.to_nat cols.
+Proof.
+  intros rows cols Hr Hc. unfold rp_logical_x. cbn [rotplanar_site_bounds].
+  destruct (rp_sites_weight rows cols pX (map (fun x => (x, 0)) (rc_range 0 (cols - 1 + 1)))) as (H & _).
+  - discriminate.
+  - apply rc_NoDup_map_inj; [|apply rc_range_NoDup]. intros x y _ _ E. congruence.
+  - apply Forall_forall. intros i Hi. apply in_map_iff in Hi. destruct Hi as (x & <- & Hx).
+    apply rc_range_In in Hx. apply rp_in_site_bounds_iff. lia.
+  - rewrite H, map_length, rc_range_length. f_equal. lia.
+Qed.
+Theorem rp_logical_z_weight : forall rows cols, 1 <= rows -> 1 <= cols ->
+  bsf_wt (rc_to_bsf (rp_logical_z rows cols (rp_identity rows cols))) = Z.to_nat rows.
+Proof.
+  intros rows cols Hr Hc. unfold rp_logical_z. cbn [rotplanar_site_bounds].
+  destruct (rp_sites_weight rows cols pZ (map (fun y => (cols - 1, y)) (rc_range 0 (rows - 1 + 1)))) as (H & _).
+  - discriminate.
+  - apply rc_NoDup_map_inj; [|apply rc_range_NoDup]. intros x y _ _ E. congruence.
+  - apply Forall_forall. intros i Hi. apply in_map_iff in Hi. destruct Hi as (y & <- & Hy).
+    apply rc_range_In in Hy. apply rp_in_site_bounds_iff. lia.
+  - rewrite H, map_length, rc_range_length. f_equal. lia.
+Qed.
+(* the lighter supplied logical weighs exactly the advertised d, for every size *)
+Theorem rp_logical_weights_all : forall rows cols, 1 <= rows -> 1 <= cols ->
+  let '(_, _, d) := rotplanar_n_k_d rows cols in
+  Nat.min (bsf_wt (rc_to_bsf (rp_logical_x rows cols (rp_identity rows cols))))
+          (bsf_wt (rc_to_bsf (rp_logical_z rows cols (rp_identity rows cols)))) = Z.to_nat d.
+Proof.
+  intros rows cols Hr Hc. cbn [rotplanar_n_k_d]. rewrite rp_logical_x_weight, rp_logical_z_weight by auto. lia.
+Qed.
+(* site access round trip, every size: after site(op, idx) on the identity, operator(idx) = op and every other
+   in-bounds site still reads I *)
+Theorem rp_site_operator_roundtrip : forall rows cols op i j, 
+  rotplanar_is_in_site_bounds rows cols i = true -> rotplanar_is_in_site_bounds rows cols j = true ->
+  rp_operator rows cols j (rp_site rows cols op i (rp_identity rows cols)) = Some (if rc_idx_eqb i j then op else pI).
+Proof.
+  intros rows cols op i j Hi Hj. unfold rp_operator, rp_site. rewrite Hi, Hj. f_equal.
+  unfold rc_letter, rc_flip, rp_identity, rc_identity. cbn [rc_xs rc_zs].
+  set (n := rp_n rows cols). set (fi := Z.to_nat (rotplanar_flatten rows cols i)). set (fj := Z.to_nat (rotplanar_flatten rows cols j)).
+  assert (Hlt : (fi < n)%nat).
+  { pose proof (rp_flatten_range rows cols i Hi) as Hr. unfold n, rp_n, fi.
+    destruct (rotplanar_n_k_d rows cols) as [[n' k] d]. cbn [fst] in Hr. lia. }
+  destruct (rc_idx_eqb i j) eqn:E.
+  - apply rc_idx_eqb_spec in E. subst j. fold fi.
+    destruct op; cbn [xbit zbit]; rewrite ?rc_flip_at_nth_same by (now rewrite zeros_length); rewrite ?rc_nth_zeros; reflexivity.
+  - assert (Hne : fi <> fj).
+    { intros Ef. apply (rp_flat_nat_inj rows cols i j Hi Hj) in Ef. subst. 
+      assert (rc_idx_eqb j j = true) by (now apply rc_idx_eqb_spec). congruence. }
+    destruct op; cbn [xbit zbit]; rewrite ?rc_flip_at_nth_other by auto; rewrite ?rc_nth_zeros; reflexivity.
+Qed.
+
+(* ---------- rotated toric: the same for its four logicals ---------- *)
+Lemma rt_mod_index_small rows cols x y : 0 <= x < cols -> 0 <= y < rows -> rottoric_mod_index rows cols (x, y) = (x, y).
+Proof.
+  intros Hx Hy. cbn. replace (cols - 1 + 1) with cols by lia. replace (rows - 1 + 1) with rows by lia.
+  now rewrite !Z.mod_small by lia.
+Qed.
+Lemma rt_sites_flips rows cols op idxs : forall p,
+  rt_sites rows cols op idxs p = rc_apply_flips op (map (rt_flat rows cols) idxs) p.
+Proof.
+  induction idxs as [|i idxs IH]; intros p.
+  - destruct p. unfold rc_apply_flips. cbn. destruct (xbit op), (zbit op); reflexivity.
+  - cbn [map]. rewrite rc_apply_flips_cons. unfold rt_sites in *. cbn [fold_left]. now rewrite IH.
+Qed.
+Lemma rt_sites_weight rows cols op idxs : op = pX \/ op = pZ -> NoDup idxs ->
+  Forall (fun i => rottoric_is_in_bounds rows cols i = true) idxs ->
+  bsf_wt (rc_to_bsf (rt_sites rows cols op idxs (rt_identity rows cols))) = length idxs.
+Proof.
+  intros Hop Hnd Hin. rewrite rt_sites_flips. rewrite Forall_forall in Hin.
+  assert (Hflat : forall i, In i idxs -> rt_flat rows cols i = Z.to_nat (rottoric_flatten rows cols i)).
+  { intros [x y] Hi. unfold rt_flat. pose proof (Hin _ Hi) as Hb. apply rt_in_bounds_iff in Hb.
+    now rewrite rt_mod_index_small by lia. }
+  set (ps := map (rt_flat rows cols) idxs).
+  assert (Hps : NoDup ps).
+  { apply rc_NoDup_map_inj; auto. intros a b Ha Hb E. rewrite (Hflat a Ha), (Hflat b Hb) in E.
+    apply (rt_flatten_injective rows cols); auto.
+    pose proof (rt_flatten_range rows cols a (Hin _ Ha)). pose proof (rt_flatten_range rows cols b (Hin _ Hb)). lia. }
+  assert (Hlt : forall i, In i ps -> (i < length (zeros (rt_n rows cols)) /\ nth i (zeros (rt_n rows cols)) false = false)%nat).
+  { intros i Hi. rewrite zeros_length, rc_nth_zeros. split; auto.
+    apply in_map_iff in Hi. destruct Hi as (idx & <- & Hidx). rewrite (Hflat _ Hidx).
+    pose proof (rt_flatten_range rows cols idx (Hin _ Hidx)) as Hr. unfold rt_n.
+    destruct (rottoric_n_k_d rows cols) as [[n k] d]. cbn [fst] in Hr. lia. }
+  assert (Hc : count_true (rc_flips ps (zeros (rt_n rows cols))) = length idxs).
+  { rewrite rc_flips_count by auto. rewrite rc_count_zeros. unfold ps. now rewrite map_length. }
+  assert (Hl : length (rc_flips ps (zeros (rt_n rows cols))) = rt_n rows cols) by (now rewrite rc_flips_length, zeros_length).
+  unfold rc_apply_flips, rt_identity, rc_identity, rc_to_bsf. cbn [rc_xs rc_zs].
+  destruct Hop as [-> | ->]; cbn [xbit zbit]; [now rewrite rc_wt_x_only|now rewrite rc_wt_z_only].
+Qed.
+Lemma rt_column0_facts rows cols : 1 <= rows -> 1 <= cols ->
+  NoDup (rt_column0 rows cols) /\ Forall (fun i => rottoric_is_in_bounds rows cols i = true) (rt_column0 rows cols) /\
+  length (rt_column0 rows cols) = Z.to_nat rows.
+Proof.
+  intros Hr Hc. unfold rt_column0. cbn [rottoric_bounds]. repeat split.
+  - apply rc_NoDup_map_inj; [|apply rc_range_NoDup]. intros x y _ _ E. congruence.
+  - apply Forall_forall. intros i Hi. apply in_map_iff in Hi. destruct Hi as (y & <- & Hy).
+    apply rc_range_In in Hy. apply rt_in_bounds_iff. lia.
+  - rewrite map_length, rc_range_length. f_equal. lia.
+Qed.
+Lemma rt_row0_facts rows cols : 1 <= rows -> 1 <= cols ->
+  NoDup (rt_row0 rows cols) /\ Forall (fun i => rottoric_is_in_bounds rows cols i = true) (rt_row0 rows cols) /\
+  length (rt_row0 rows cols) = Z.to_nat cols.
+Proof.
+  intros Hr Hc. unfold rt_row0. cbn [rottoric_bounds]. repeat split.
+  - apply rc_NoDup_map_inj; [|apply rc_range_NoDup]. intros x y _ _ E. congruence.
+  - apply Forall_forall. intros i Hi. apply in_map_iff in Hi. destruct Hi as (x & <- & Hx).
+    apply rc_range_In in Hx. apply rt_in_bounds_iff. lia.
+  - rewrite map_length, rc_range_length. f_equal. lia.
+Qed.
+(* X1, Z2 (column x = 0) weigh rows; X2, Z1 (row y = 0) weigh cols; the lightest weighs d — every size *)
+Theorem rt_logical_weights_all : forall rows cols, 1 <= rows -> 1 <= cols ->
+  let w := fun p => bsf_wt (rc_to_bsf p) in
+  let id := rt_identity rows cols in
+  w (rt_logical_x1 rows cols id) = Z.to_nat rows /\ w (rt_logical_x2 rows cols id) = Z.to_nat cols /\
+  w (rt_logical_z1 rows cols id) = Z.to_nat cols /\ w (rt_logical_z2 rows cols id) = Z.to_nat rows /\
+  let '(_, _, d) := rottoric_n_k_d rows cols in
+  Nat.min (w (rt_logical_x1 rows cols id)) (w (rt_logical_x2 rows cols id)) = Z.to_nat d.
+Proof.
+  intros rows cols Hr Hc w id.
+  destruct (rt_column0_facts rows cols Hr Hc) as (C1 & C2 & C3).
+  destruct (rt_row0_facts rows cols Hr Hc) as (R1 & R2 & R3).
+  assert (H1 : w (rt_logical_x1 rows cols id) = Z.to_nat rows).
+  { unfold w, rt_logical_x1, id. rewrite rt_sites_weight; auto. }
+  assert (H2 : w (rt_logical_x2 rows cols id) = Z.to_nat cols).
+  { unfold w, rt_logical_x2, id. rewrite rt_sites_weight; auto. }
+  assert (H3 : w (rt_logical_z1 rows cols id) = Z.to_nat cols).
+  { unfold w, rt_logical_z1, id. rewrite rt_sites_weight; auto. }
+  assert (H4 : w (rt_logical_z2 rows cols id) = Z.to_nat rows).
+  { unfold w, rt_logical_z2, id. rewrite rt_sites_weight; auto. }
+  repeat split; auto. cbn [rottoric_n_k_d]. rewrite H1, H2. lia.
+Qed.
+
+Print Assumptions rp_flatten_injective.
+Print Assumptions rp_flatten_surjective.
+Print Assumptions rt_flatten_injective.
+Print Assumptions rt_translation_target.
+Print Assumptions rp_logical_weights_all.
+Print Assumptions rp_site_operator_roundtrip.
+Print Assumptions rt_logical_weights_all.
